@@ -375,6 +375,25 @@ def targeted(rng, base, tier):
         lambda c, t, r: c.__setitem__('assign', [
             (a[0], a[1], a[2], {'delta_temp': -50.0})
             for a in c['assign']]), ['BoundaryCondition'])
+    if len(base(random.Random(1))[0]['assign']) > 1:
+        # the same faults at one later position only (the first positions
+        # of every assembly type stay valid)
+        def later(kwf):
+            def fn(c, t, r):
+                i = len(c['assign']) - 1 - r.randrange(2)
+                a = c['assign'][i]
+                c['assign'][i] = (a[0], a[1], a[2], kwf(a[3], c))
+            return fn
+        for nm, kwf in (
+                ('missing', lambda kw, c: {}),
+                ('two', lambda kw, c: dict(kw, outlet_temp=800.0)),
+                ('flow-zero', lambda kw, c: {'flowrate': 0.0}),
+                ('flow-negative', lambda kw, c: {'flowrate': -1.0}),
+                ('outlet-below-inlet',
+                 lambda kw, c: {'outlet_temp': c['inlet'] - 50.0}),
+                ('delta-negative', lambda kw, c: {'delta_temp': -50.0})):
+            add('bc-' + nm + '-at-later-position', later(kwf),
+                ['BoundaryCondition'])
     unknown = {'names': 0}
     add('unknown-coolant',
         lambda c, t, r: c.__setitem__('coolant', 'unobtainium'),
